@@ -203,6 +203,44 @@ fn p_clone_overaligned() {
     assert!(Arc::strong_count(&keep) == 1, "C10 all handles released");
     kani::cover!(true, "end");
 }
+/// payload classes: zero-sized with destructor, plain without destructor, large, over-aligned with destructor
+struct Pz;
+impl Drop for Pz { fn drop(&mut self) { unsafe { DROPS += 1 } } }
+struct Pbig([u64; 24]);
+#[repr(align(32))]
+struct Pal { v: u32, heap: Box<u8> }
+impl Drop for Pal { fn drop(&mut self) { unsafe { DROPS += 1 } } }
+fn lifecycle<T: 'static>(mk: fn() -> T, counted: bool) {
+    let arc = Arc::new(mk());
+    let keep = arc.clone();
+    let c = CArc::<T>::from(arc);
+    let c2 = c.clone();
+    assert!(Arc::strong_count(&keep) == 3, "C10 clone increments the strong count by one (any payload class)");
+    let mut c3 = c2.into_opaque();
+    let t = c3.take();
+    drop(c3);
+    assert!(Arc::strong_count(&keep) == 3, "C10 take / dropping the emptied handle leave the count unchanged (any payload class)");
+    let s = t.transpose().unwrap();
+    let s2 = s.clone();
+    assert!(Arc::strong_count(&keep) == 4, "C10 CArcSome clone increments (any payload class)");
+    drop(s);
+    drop(s2);
+    assert!(Arc::strong_count(&keep) == 2, "C10 drops decrement by one each (any payload class)");
+    let back = unsafe { c.transpose().unwrap().into_arc() };
+    assert!(Arc::strong_count(&keep) == 2 && Arc::ptr_eq(&back, &keep), "C10 into_arc returns the same allocation without changing the count (any payload class)");
+    drop(back);
+    assert!(drops() == 0, "C10 value alive while a handle exists (any payload class)");
+    drop(keep);
+    assert!(drops() == counted as u32, "C10 value dropped exactly when the last handle goes away (any payload class)");
+    let solo = CArcSome::<T>::from(mk());
+    drop(solo.transpose().into_opaque());
+    assert!(drops() == 2 * counted as u32, "C10 a value owned only through an opaque handle is dropped exactly once (any payload class)");
+}
+#[kani::proof] fn p_class_zst_drop() { lifecycle::<Pz>(|| Pz, true); kani::cover!(true, "end"); }
+#[kani::proof] fn p_class_plain() { lifecycle::<u64>(|| 7, false); kani::cover!(true, "end"); }
+#[kani::proof] fn p_class_big() { lifecycle::<Pbig>(|| Pbig([3; 24]), false); kani::cover!(true, "end"); }
+#[kani::proof] fn p_class_aligned_drop() { lifecycle::<Pal>(|| Pal { v: 1, heap: Box::new(2) }, true); kani::cover!(true, "end"); }
+//@ prefix=p_class kind=property clause=the whole handle lifecycle (from, clone, into_opaque, take, transpose, into_arc, drop) keeps strong count == live handles and drops the value exactly at the last handle for every payload class: zero-sized with destructor, plain, large, over-aligned with destructor
 //@ prefix=p_take kind=property clause=take: count unchanged, source becomes the empty handle whose drop calls nothing, result dereferences to the same value
 #[kani::proof]
 fn p_take() {
